@@ -134,7 +134,9 @@ func runKMountSameProcess(c *core.Case, k int) {
 			nextID++
 			q := fmt.Sprintf("INSERT INTO t0 VALUES(%d,%d,randomblob(%d))", nextID, round, 100+c.Rng.IntN(3000))
 			if j%3 == 2 {
-				q = fmt.Sprintf("UPDATE t0 SET k=k+1, v=randomblob(%d) WHERE id=%d", 100+c.Rng.IntN(2000), 11+c.Rng.IntN(nextID-11))
+				// (a row that exists for certain: an UPDATE that matches nothing writes
+				// no frame and is no transaction)
+				q = fmt.Sprintf("UPDATE t0 SET k=k+1, v=randomblob(%d) WHERE id=1", 100+c.Rng.IntN(2000))
 			}
 			if err := h2.exec(q); err != nil {
 				fail("sql-error", fmt.Sprintf("round %d: %q on the second connection while the first one checkpoints (%s): %v", round, q, ckpt, err))
